@@ -261,7 +261,23 @@ class ODict:
                 out.append(E.raise_(s2, "builtins.KeyError"))
         return out
 
-    methods = {"get": m_get, "__getitem__": m_getitem, "__setitem__": m_setitem, "__delitem__": m_delitem}
+    def m_pop(self, E, st, obj, args, kw):
+        """d.pop(k[, default]): the value, entry removed - or the default / KeyError when absent"""
+        _access(E, st, obj, "pop")
+        k = box(args[0])
+        out = []
+        for s2, ok in E.branch(st, z3.Select(st.get(obj, "dom"), k)):
+            if ok:
+                v = VOpaque(z3.Select(s2.get(obj, "map"), k))
+                s2.set(obj, "dom", z3.Store(s2.get(obj, "dom"), k, z3.BoolVal(False)))
+                out.append(Res(s2, v))
+            elif len(args) > 1:
+                out.append(Res(s2, args[1]))
+            else:
+                out.append(E.raise_(s2, "builtins.KeyError"))
+        return out
+
+    methods = {"get": m_get, "__getitem__": m_getitem, "__setitem__": m_setitem, "__delitem__": m_delitem, "pop": m_pop}
 
 
 # ----------------------------------------------------------------------------------------------------------------------
